@@ -375,11 +375,33 @@ if z3 is not None:
 
 def norm_start(off, L):
     """Python's clamping of a (possibly negative) start offset into [0, L]."""
+    if isinstance(off, int) and off == 0:
+        return 0
     if is_sym(off) or is_sym(L):
         return z3.If(off < 0, z3.If(off + L < 0, 0, off + L), z3.If(off > L, L, off))
     if off < 0:
         return max(off + L, 0)
     return min(off, L)
+
+
+def lemma_incremental_find(P, w, s, fresh):
+    """LEMMA incremental_find (proved on every run by contracts/extra_c03.py from the definition of Find; here only
+    instantiated).  Let w be a suffix of P that is all of P or reaches at least max(|s|,1)-1 characters behind the last `fresh`
+    characters, and let s not occur in P[:|P|-fresh] (or let that prefix be empty).  Then searching w from
+    `-(fresh+|s|)` (Python's clamping) finds exactly the first occurrence of s in P:
+        Find(P, s, 0) == (-1 if f == -1 else f + |P| - |w|)      where f = w.find(s, -(fresh + len(s)))"""
+    if not (is_sym(P) or is_sym(w) or is_sym(s) or is_sym(fresh)):
+        hyp = P.endswith(w) and 0 <= fresh <= len(P) and (w == P or len(w) >= fresh + max(len(s), 1) - 1) and \
+            (fresh == len(P) or P[:len(P) - fresh].find(s) == -1)
+        f = w.find(s, -(fresh + len(s)))
+        return (not hyp) or P.find(s) == (-1 if f == -1 else f + len(P) - len(w))
+    P, w, s = [x if is_sym(x) else z3.StringVal(to_z3_str(x)) for x in (P, w, s)]
+    LP, Lw, m = z3.Length(P), z3.Length(w), z3.Length(s)
+    Pold = z3.SubString(P, 0, LP - fresh)
+    hyp = z3.And(z3.SuffixOf(w, P), 0 <= fresh, fresh <= LP, z3.Or(w == P, Lw >= fresh + z3.If(m >= 1, m, 1) - 1),
+                 z3.Or(fresh == LP, find_from(Pold, s, 0) == -1))
+    f = find_from(w, s, -(fresh + m))
+    return z3.Implies(hyp, find_from(P, s, 0) == z3.If(f == -1, -1, f + LP - Lw))
 
 
 def find_from(buf, s, off):
